@@ -217,3 +217,19 @@ Definition scope_labels (c : config) (scope_name scope_version : bytes) : option
     metric cannot be built is skipped altogether (none of its instruments is exposed). *)
 Definition info_labels_ok (utf8_scheme : bool) (attrs : list attr) : bool :=
   point_exposed utf8_scheme (get_attrs utf8_scheme attrs).
+
+(** ** addExemplars (monotonic sums and explicit-bucket histograms).  [attributesToLabels] escapes every filtered
+    attribute key with EscapeName (whatever the validation scheme) and adds trace_id (32 hex digits) and span_id
+    (16); client_golang's newExemplar (modelled, not verified) rejects a label name that fails checkLabelName and a
+    label set of more than 128 runes in total.  One rejected exemplar makes NewMetricWithExemplars fail: the
+    error goes to otel.Handle and the metric is exposed without exemplars.  (Filtered keys are assumed distinct
+    after escaping, values ASCII: rune counts are list lengths.) *)
+Definition EXEMPLAR_MAX_RUNES : nat := 128.
+Definition EXEMPLAR_ID_RUNES : nat := 8 + 32 + 7 + 16.
+
+Definition exemplar_runes (filtered : list attr) : nat :=
+  fold_right (fun kv n => (length (escape_name (fst kv)) + length (snd kv) + n)%nat) EXEMPLAR_ID_RUNES filtered.
+
+Definition exemplar_rejected (utf8_scheme : bool) (filtered : list attr) : bool :=
+  negb (forallb (fun kv => check_label_name utf8_scheme (escape_name (fst kv))) filtered) ||
+  (EXEMPLAR_MAX_RUNES <? exemplar_runes filtered)%nat.
